@@ -272,7 +272,20 @@ def op_programs():
     def fine_shared_unflatten(me, x, v):
         return grad(lambda fl: np.sum(UNFLAT(fl)["w"] ** 2) * UNFLAT(fl)["b"][1] + np.sum(UNFLAT(fl)["b"][0] * fl[:1]))(x)
 
-    progs = {"fine_shared_vjp": fine_shared_vjp, "fine_shared_unflatten": fine_shared_unflatten, "fine_holo": fine_holo, "fine_cwarn": fine_cwarn, "fine_jvp_own": fine_jvp_own, "fine_jvp_sharedfn": fine_jvp_sharedfn, "fine_fwd_over_rev": fine_fwd_over_rev, "fine_einsum_a": fine_einsum_a, "fine_einsum_b": fine_einsum_b, "fine_fft": fine_fft, "hvp_sort": hvp_sort, "grad_sort": grad_sort, "hvp_index": hvp_index, "nested_mixed": nested_mixed, "vjp_reuse": vjp_reuse,
+    # ONE const_graph-wrapped function (autograd.misc.tracers: the recorded graph is replayed on every later call), built
+    # once and then differentiated by all threads on their own data: first order, and nested (Hessian-vector product)
+    from autograd.misc import const_graph as _const_graph
+
+    CG = _const_graph(lambda z: np.sum(np.sin(z) * z) + np.sum(np.tanh(z * 0.5) * z[::-1]) + np.dot(z, z * z))
+    CG(onp.array([0.1, 0.2, 0.3, 0.4]))
+
+    def fine_const_graph(me, x, v):
+        return grad(CG)(x)
+
+    def fine_const_graph_hvp(me, x, v):
+        return grad(lambda y: np.sum(grad(CG)(y) * v))(x)
+
+    progs = {"fine_const_graph": fine_const_graph, "fine_const_graph_hvp": fine_const_graph_hvp, "fine_shared_vjp": fine_shared_vjp, "fine_shared_unflatten": fine_shared_unflatten, "fine_holo": fine_holo, "fine_cwarn": fine_cwarn, "fine_jvp_own": fine_jvp_own, "fine_jvp_sharedfn": fine_jvp_sharedfn, "fine_fwd_over_rev": fine_fwd_over_rev, "fine_einsum_a": fine_einsum_a, "fine_einsum_b": fine_einsum_b, "fine_fft": fine_fft, "hvp_sort": hvp_sort, "grad_sort": grad_sort, "hvp_index": hvp_index, "nested_mixed": nested_mixed, "vjp_reuse": vjp_reuse,
              "shared_grad": shared_grad, "shared_hvp": shared_hvp, "shared_jvp": shared_jvp, "shared_grad_argnum": shared_grad_argnum}
     return box, progs
 
@@ -297,7 +310,7 @@ def _fine_hook(box, me):
     def prof(frame, event, arg):
         if event == "call" or event == "return":
             fn = frame.f_code.co_filename
-            if "/autograd/numpy/" in fn or fn.endswith("einsumfunc.py"):
+            if "/autograd/numpy/" in fn or "/autograd/misc/" in fn or fn.endswith("einsumfunc.py"):
                 s = box[0]
                 if s is not None:
                     s.point(me)
